@@ -36,6 +36,13 @@ TARGETS = [
     ]),
     ("src/cminx/aggregator.py", [
         "DocumentationAggregator.clean_doc_lines",
+        "DocumentationAggregator._argument_text",
+        "DocumentationAggregator.process_generic_command",
+        "DocumentationAggregator.process_set",
+        "DocumentationAggregator.process_option",
+        "DocumentationAggregator.process_add_test",
+        "DocumentationAggregator.process_ct_add_test",
+        "DocumentationAggregator.process_ct_add_section",
     ]),
     ("src/cminx/documentation_types.py", [
         "FunctionDocumentation.process",
@@ -58,7 +65,8 @@ RESERVED = {"s", "at", "as", "in", "if", "then", "else", "let", "fun", "forall",
             "with", "end", "return", "fix", "cofix", "for", "where", "using", "Type", "Prop", "Set",
             "SProp", "nat", "bool", "list", "option", "true", "false", "None", "Some", "str", "map",
             "length", "fst", "snd", "app", "negb", "andb", "orb", "handle", "wstate", "elem", "char", "N",
-            "nl", "seq", "concat", "repeat", "rev", "nth", "skipn", "of_string"}
+            "nl", "seq", "concat", "repeat", "rev", "nth", "skipn", "of_string", "arg", "cmd", "entry",
+            "Z", "inl", "inr", "filter", "combine"}
 WORLD = "world"          # the threaded RST document of functions that take an RSTWriter
 
 WRITER_CLASSES = {"RSTWriter", "Directive"}
@@ -94,6 +102,16 @@ def coq_type(t, top=True):
         return "handle"
     if t == "world":
         return "wstate"
+    if t == "zint":
+        return "Z"
+    if t == "cmd":
+        return "Parser.cmd"
+    if t == "arg":
+        return "Parser.arg"
+    if t == "entry":
+        return "DocTypes.entry"
+    if t == "await":
+        return "Aggregator.await"
     if isinstance(t, tuple) and t[0] == "list" and t[1] is not None:
         r = "list " + coq_type(t[1], False)
     elif isinstance(t, tuple) and t[0] == "opt":
@@ -116,6 +134,8 @@ def default_of(t):
         return "0"
     if isinstance(t, tuple) and t[0] == "list":
         return "[]"
+    if t == "arg":
+        return "py_no_arg"
     raise Unsupported(f"{Ctx.file}: no default value for element type {t!r}")
 
 
@@ -123,6 +143,15 @@ def unify(a, b):
     """the common type of a and b ( ('list', None) is the type of the literal [] ) or None"""
     if a == b:
         return a
+    if {a, b} == {"int", "zint"}:
+        return "zint"           # the int side is injected with py_zint_of_int (see Fn.coerce)
+    for x, y in ((a, b), (b, a)):
+        if x == "none" and isinstance(y, tuple) and y[0] == "opt":
+            return y
+        if x == "none" and y in ("str",):
+            return ("opt", y)   # the other side is wrapped in Some (see Fn.coerce)
+        if y == ("opt", x) and x == "str":
+            return y
     if isinstance(a, tuple) and isinstance(b, tuple) and a[0] == b[0] == "list":
         if a[1] is None:
             return b
@@ -234,7 +263,14 @@ class Module:
                 return ("enum", a.id)
             if a.id in WRITER_CLASSES:
                 return "writer"
+            if a.id == "ParserRuleContext":
+                return "arg"        # the aggregator only passes argument contexts under this annotation
+            if a.id == "DocumentationType":
+                return "entry"
             return None
+        if isinstance(a, ast.Attribute) and isinstance(a.value, ast.Name) and a.value.id == "CMakeParser":
+            return {"Command_invocationContext": "cmd", "Single_argumentContext": "arg",
+                    "Compound_argumentContext": "arg"}.get(a.attr)
         if isinstance(a, ast.Subscript) and isinstance(a.value, ast.Name):
             if a.value.id in ("List", "Tuple", "list", "tuple", "Sequence"):
                 inner = self.annotation(a.slice)
@@ -248,6 +284,8 @@ class Module:
                 x, y = a.slice.elts
                 if isinstance(y, ast.Constant) and y.value is None:
                     inner = self.annotation(x)
+                    if inner == "entry":
+                        return "await"      # a reference to an object held in self.documented, or None
                     return ("opt", inner) if inner is not None else None
                 tx, ty = self.annotation(x), self.annotation(y)
                 for u, v in ((tx, ty), (ty, tx)):
@@ -337,6 +375,10 @@ def target_names(stmts, in_loop=False):
             elif isinstance(st, ast.For):
                 go(st.body)
                 go(st.orelse)
+            elif isinstance(st, ast.Try):
+                go(st.body)
+                for h in st.handlers:
+                    go(h.body)
     go(stmts)
     return out
 
@@ -348,6 +390,8 @@ def escapes(stmts):
         if isinstance(st, (ast.Return, ast.Raise, ast.Break, ast.Continue)):
             return True
         if isinstance(st, ast.If) and (escapes(st.body) or escapes(st.orelse)):
+            return True
+        if isinstance(st, ast.Try) and (escapes(st.body) or any(escapes(h.body) for h in st.handlers)):
             return True
         if isinstance(st, ast.For):
             if any(isinstance(n, (ast.Return, ast.Raise)) for s2 in st.body for n in ast.walk(s2)):
@@ -383,16 +427,37 @@ def is_minus_one(e):
         and e.operand.value == 1 and not isinstance(e.operand.value, bool)
 
 
+# Documentation classes of documentation_types.py as constructors of Model.DocTypes.entry.
+# class name -> (Gallina head, [slots]); a slot is ("str"|"opt"|"liststr"|"bool", position of the
+# Python argument) or ("vartype", position) or ("const", position, required Python constant)
+ENTRY_CONSTRUCTORS = {
+    "GenericCommandDocumentation": ("DocTypes.EGeneric", 3, [("str", 0), ("str", 1), ("liststr", 2)]),
+    "CTestDocumentation": ("DocTypes.ECTest", 3, [("str", 0), ("str", 1), ("liststr", 2)]),
+    "VariableDocumentation": ("DocTypes.EVariable", 4, [("str", 0), ("str", 1), ("vartype", 2), ("opt", 3)]),
+    "OptionDocumentation": ("DocTypes.EOption", 5, [("str", 0), ("str", 1), ("const", 2, "bool"), ("opt", 3),
+                                                    ("str", 4)]),
+    # params and is_macro keep their dataclass defaults ([] and False)
+    "TestDocumentation": ("DocTypes.ETest false", 3, [("str", 0), ("str", 1), ("bool", 2), ("lit", "[]"),
+                                                      ("lit", "false")]),
+    "SectionDocumentation": ("DocTypes.ETest true", 3, [("str", 0), ("str", 1), ("bool", 2), ("lit", "[]"),
+                                                        ("lit", "false")]),
+}
+VARTYPES = {"STRING": "DocTypes.VString", "LIST": "DocTypes.VList", "UNSET": "DocTypes.VUnset"}
+DOCUMENTED = "self.documented"      # THE list of documentation objects (index space of `await`)
+LOG_METHODS = {"debug", "info", "warning", "error", "critical", "exception"}
+
 WRITER_METHODS = {"directive", "text", "field", "option", "bulleted_list", "enumerated_list", "doctest"}
 
 
 class Var:
-    __slots__ = ("coq", "type", "group")
+    __slots__ = ("coq", "type", "group", "index", "child")
 
-    def __init__(self, coq, type_, group=None):
+    def __init__(self, coq, type_, group=None, index=None, child=False):
         self.coq = coq
         self.type = type_
         self.group = group      # frozenset of python names aliasing one mutable list, or None
+        self.index = index      # Gallina name of the position at which this entry was appended to DOCUMENTED
+        self.child = child      # ranges over the argument children of the function's parameter
 
 
 # ---------------------------------------------------------------------------------------
@@ -414,6 +479,23 @@ class Fn:
         self.notes = []
         self.field_types = {}
         self.coq_names = {}             # Gallina binder -> the python variable it stands for
+        self.out_fields = [n[5:] for n in target_names(fn.body) if n.startswith("self.")]
+        self.inplace_mutated = set()
+        for n in ast.walk(fn):
+            if isinstance(n, ast.Call) and isinstance(n.func, ast.Attribute) and n.func.attr == "append":
+                r = n.func.value
+                self.inplace_mutated.add(r.id if isinstance(r, ast.Name) else
+                                         "self." + r.attr if isinstance(r, ast.Attribute) else "?")
+            if isinstance(n, ast.Assign):
+                for tg in n.targets:
+                    if isinstance(tg, ast.Subscript):
+                        r = tg.value
+                        self.inplace_mutated.add(r.id if isinstance(r, ast.Name) else
+                                                 "self." + r.attr if isinstance(r, ast.Attribute) else "?")
+        self.rec_param = None           # the parameter of a function over argument contexts (recursion allowed)
+        self.recursive = False
+        self.declared_result = None
+        self.result_fields = None
         self.mutated_params = []        # list fields that got an alias (may be mutated through it)
         # fields / parameters that the function compares with None are Optional, whatever the annotation says
         self.optional = []
@@ -429,7 +511,7 @@ class Fn:
         for n in ast.walk(fn):
             if isinstance(n, (ast.Lambda, ast.FunctionDef, ast.AsyncFunctionDef, ast.ClassDef)) and n is not fn:
                 fail(n, "nested definition")
-            if isinstance(n, (ast.Global, ast.Nonlocal, ast.Try, ast.With, ast.While, ast.Yield, ast.YieldFrom,
+            if isinstance(n, (ast.Global, ast.Nonlocal, ast.With, ast.While, ast.Yield, ast.YieldFrom,
                               ast.Await, ast.Delete, ast.Assert, ast.Import, ast.ImportFrom, ast.NamedExpr)):
                 fail(n, "statement/expression outside the subset")
 
@@ -449,8 +531,6 @@ class Fn:
             if note not in self.notes:
                 self.notes.append(note)
             t = ("opt", t)
-        if node.attr in self.ever_written:
-            fail(node, f"self.{node.attr} is read where it is only conditionally assigned")
         if node.attr not in self.field_params:
             self.field_params.append(node.attr)
         self.field_types[node.attr] = t
@@ -485,6 +565,8 @@ class Fn:
                 self.ever_written.append(key[5:])
         elif key == WORLD:
             coq = WORLD
+        elif key.startswith("$index of "):
+            coq = mangle(key[10:]) + "_index"
         else:
             coq = mangle(key)
             while coq in GLOBAL_NAMES:      # never capture a generated global
@@ -512,7 +594,12 @@ class Fn:
                 return ("true" if e.value else "false"), "bool"
             if isinstance(e.value, int) and e.value >= 0:
                 return str(e.value), "int"
+            if e.value is None:
+                return "None", "none"
             fail(e, "constant")
+        if isinstance(e, ast.UnaryOp) and isinstance(e.op, ast.USub) and isinstance(e.operand, ast.Constant) \
+                and isinstance(e.operand.value, int) and not isinstance(e.operand.value, bool):
+            return f"(-{e.operand.value})%Z", "zint"
         if isinstance(e, ast.Name) or (isinstance(e, ast.Attribute) and isinstance(e.value, ast.Name)
                                        and e.value.id == "self"):
             _, v = self.lookup(e, env)
@@ -543,9 +630,20 @@ class Fn:
                 return f"({a} ++ {b})", "str"
             if ta == tb == "int":
                 return f"({a} + {b})", "int"
+            if {ta, tb} <= {"int", "zint"}:
+                return f"py_zint_add {paren_arg(self.coerce(a, ta, 'zint'))} " \
+                       f"{paren_arg(self.coerce(b, tb, 'zint'))}", "zint"
             if is_list(ta) and is_list(tb) and unify(ta, tb) is not None:
                 return f"({a} ++ {b})", unify(ta, tb)
             fail(e, f"+ on {ta} and {tb}")
+        if isinstance(e, ast.BinOp) and isinstance(e.op, ast.Sub):
+            a, ta = self.expr(e.left, env)
+            b, tb = self.expr(e.right, env)
+            if {ta, tb} <= {"int", "zint"}:
+                # a difference can be negative: an integer
+                return f"py_zint_sub {paren_arg(self.coerce(a, ta, 'zint'))} " \
+                       f"{paren_arg(self.coerce(b, tb, 'zint'))}", "zint"
+            fail(e, f"- on {ta} and {tb}")
         if isinstance(e, ast.IfExp) and self.none_test(e.test, env) is not None:
             key, v, is_not = self.none_test(e.test, env)
             env_some = dict(env)
@@ -564,7 +662,7 @@ class Fn:
             t = unify(ta, tb)
             if t is None:
                 fail(e, f"conditional expression with branches of type {ta} and {tb}")
-            return f"(if {c} then {a} else {b})", t
+            return f"(if {c} then {self.coerce(a, ta, t)} else {self.coerce(b, tb, t)})", t
         if isinstance(e, ast.BoolOp):
             # as a VALUE, `a and b` is one of its operands: only the same as the boolean when both are bools
             for v in e.values:
@@ -591,6 +689,20 @@ class Fn:
             return self.call(e, env)
         fail(e, "expression")
 
+    def coerce(self, x, t, want):
+        """the Gallina term x of type t as a term of type want (where unify(t, want) == want)"""
+        if t == want:
+            return x
+        if t == "int" and want == "zint":
+            return f"(py_zint_of_int {paren_arg(x)})"
+        if want == ("opt", "str") and t == "str":
+            return f"(Some {paren_arg(x)})"
+        if isinstance(want, tuple) and want[0] == "opt" and t == "none":
+            return "None"
+        if is_list(t) and is_list(want) and unify(t, want) == want:
+            return x
+        raise Unsupported(f"{Ctx.file}: {self.qual}: no coercion from {t} to {want}")
+
     def as_str(self, e, env, what):
         """str(e) as it happens in an f-string / str() call"""
         x, t = self.expr(e, env)
@@ -615,7 +727,13 @@ class Fn:
                 return f"py_slice_from {paren_arg(x)} {paren_arg(n)}", tx
             if sl.lower is None and sl.upper is not None and is_minus_one(sl.upper):
                 return f"py_slice_drop_last {paren_arg(x)}", tx
-            fail(e, "slice form (only x[n:] and x[:-1])")
+            if sl.lower is not None and sl.upper is not None and is_minus_one(sl.upper):
+                # x[a:-1] is (x[a:])[:-1] for a >= 0
+                n, tn = self.expr(sl.lower, env)
+                if tn != "int":
+                    fail(e, "slice bound that is not a non-negative int")
+                return f"py_slice_drop_last (py_slice_from {paren_arg(x)} {paren_arg(n)})", tx
+            fail(e, "slice form (only x[n:], x[:-1] and x[n:-1])")
         if is_minus_one(sl):
             if tx == "str":
                 return f"py_last_str {paren_arg(x)}", "str"
@@ -649,23 +767,149 @@ class Fn:
             return x, t[1]
         fail(it, f"iteration over a value of type {t}")
 
+    def is_argument_filter(self, test, var):
+        """test = isinstance(var, (CMakeParser.Single_argumentContext, CMakeParser.Compound_argumentContext))"""
+        if not (isinstance(test, ast.Call) and isinstance(test.func, ast.Name) and test.func.id == "isinstance"
+                and len(test.args) == 2 and not test.keywords and isinstance(test.args[0], ast.Name)
+                and test.args[0].id == var and isinstance(test.args[1], ast.Tuple)):
+            return False
+        names = []
+        for c in test.args[1].elts:
+            if not (isinstance(c, ast.Attribute) and isinstance(c.value, ast.Name) and c.value.id == "CMakeParser"):
+                return False
+            names.append(c.attr)
+        return sorted(names) == ["Compound_argumentContext", "Single_argumentContext"]
+
     def comprehension(self, e, env):
         if len(e.generators) != 1:
             fail(e, "comprehension with several for clauses")
         g = e.generators[0]
-        if g.ifs or g.is_async or not isinstance(g.target, ast.Name):
-            fail(e, "comprehension with a condition / pattern target")
-        xs, te = self.iterable(g.iter, env)
-        if g.target.id in env:
-            fail(e, f"comprehension variable {g.target.id} shadows a local variable")
-        env2, v = self.bind(env, g.target.id, te)
+        if g.is_async:
+            fail(e, "async comprehension")
+        ifs = list(g.ifs)
+        it = g.iter
+        # the argument children of a parser context:  X.getChildren()  filtered by isinstance
+        if isinstance(it, ast.Call) and isinstance(it.func, ast.Attribute) and it.func.attr == "getChildren" \
+                and not it.args and not it.keywords:
+            x, tx = self.expr(it.func.value, env)
+            if tx not in ("arg", "cmd") or not isinstance(g.target, ast.Name) or len(ifs) != 1 \
+                    or not self.is_argument_filter(ifs[0], g.target.id):
+                fail(e, "getChildren() outside the fixed shape [.. for v in X.getChildren() if isinstance(v, "
+                        "(CMakeParser.Single_argumentContext, CMakeParser.Compound_argumentContext))]")
+            xs = f"py_argument_children {paren_arg(x)}" if tx == "arg" else f"py_cmd_argument_children {paren_arg(x)}"
+            if g.target.id in env:
+                fail(e, f"comprehension variable {g.target.id} shadows a local variable")
+            env2, v = self.bind(env, g.target.id, "arg")
+            is_param_child = tx == "arg" and isinstance(it.func.value, ast.Name) and it.func.value.id == self.rec_param
+            env2[g.target.id] = Var(v, "arg", None, None, is_param_child)
+            body, tb = self.expr(e.elt, env2)
+            return f"py_listcomp (fun {v} => {body}) {paren_arg(xs)}", ("list", tb)
+        # for i, v in enumerate(XS)
+        if isinstance(g.target, ast.Tuple) and len(g.target.elts) == 2 \
+                and all(isinstance(x, ast.Name) for x in g.target.elts) \
+                and isinstance(it, ast.Call) and isinstance(it.func, ast.Name) and it.func.id == "enumerate" \
+                and len(it.args) == 1 and not it.keywords:
+            inner, te = self.iterable(it.args[0], env)
+            xs = f"py_enumerate {paren_arg(inner)}"
+            env2 = env
+            names = []
+            for nm, ty in zip(g.target.elts, ("int", te)):
+                if nm.id in env:
+                    fail(e, f"comprehension variable {nm.id} shadows a local variable")
+                env2, v = self.bind(env2, nm.id, ty)
+                names.append(v)
+            pat = "'(" + ", ".join(names) + ")"
+        elif isinstance(g.target, ast.Name):
+            xs, te = self.iterable(it, env)
+            if g.target.id in env:
+                fail(e, f"comprehension variable {g.target.id} shadows a local variable")
+            env2, pat = self.bind(env, g.target.id, te)
+        else:
+            fail(e, "comprehension target")
         body, tb = self.expr(e.elt, env2)
-        return f"py_listcomp (fun {v} => {body}) {paren_arg(xs)}", ("list", tb)
+        if ifs:
+            c = self.cond(ifs[0], env2) if len(ifs) == 1 else \
+                "(" + " && ".join(self.cond(i, env2) for i in ifs) + ")"
+            return f"py_listcomp_if (fun {pat} => {c}) (fun {pat} => {body}) {paren_arg(xs)}", ("list", tb)
+        return f"py_listcomp (fun {pat} => {body}) {paren_arg(xs)}", ("list", tb)
 
     def call(self, e, env):
         if e.keywords:
             fail(e, "keyword arguments")
         f = e.func
+        # ---- documentation objects: constructors of Model.DocTypes.entry
+        if isinstance(f, ast.Name) and f.id in ENTRY_CONSTRUCTORS and f.id not in env:
+            head, arity, slots = ENTRY_CONSTRUCTORS[f.id]
+            if len(e.args) != arity or any(isinstance(a, ast.Starred) for a in e.args):
+                fail(e, f"{f.id} with other than {arity} positional arguments")
+            out = [head]
+            for slot in slots:
+                kind = slot[0]
+                if kind == "lit":
+                    out.append(slot[1])
+                    continue
+                a = e.args[slot[1]]
+                if kind == "const":
+                    if not (isinstance(a, ast.Constant) and a.value == slot[2]):
+                        fail(a, f"argument {slot[1]} of {f.id} must be the constant {slot[2]!r}")
+                    continue
+                if kind == "vartype":
+                    if not (isinstance(a, ast.Attribute) and isinstance(a.value, ast.Name)
+                            and a.value.id == "VarType" and a.attr in VARTYPES and "VarType" not in env):
+                        fail(a, "variable type that is not a VarType member")
+                    out.append(VARTYPES[a.attr])
+                    continue
+                x, tx = self.expr(a, env)
+                if kind == "liststr" and (isinstance(a, (ast.Name, ast.Attribute))):
+                    # the object keeps a reference to the list: it must not be mutated in this function
+                    akey, _ = self.lookup(a, env)
+                    if akey in self.inplace_mutated:
+                        fail(a, f"the list {akey} is stored in a documentation object and mutated in place")
+                want = {"str": "str", "opt": ("opt", "str"), "liststr": ("list", "str"), "bool": "bool"}[kind]
+                if unify(tx, want) != want:
+                    fail(a, f"argument {slot[1]} of {f.id} has type {tx}, expected {want}")
+                out.append(paren_arg(self.coerce(x, tx, want)))
+            return "(" + " ".join(out) + ")", "entry"
+        # ---- the parser-context protocol
+        if isinstance(f, ast.Name) and f.id == "isinstance" and len(e.args) == 2:
+            x, tx = self.expr(e.args[0], env)
+            c = e.args[1]
+            if tx == "arg" and isinstance(c, ast.Attribute) and isinstance(c.value, ast.Name) \
+                    and c.value.id == "CMakeParser" and c.attr == "Compound_argumentContext":
+                return f"py_is_compound {paren_arg(x)}", "bool"
+            fail(e, "isinstance outside the parser-context vocabulary")
+        if isinstance(f, ast.Attribute) and f.attr in ("getText", "single_argument") and not e.args:
+            x, tx = self.expr(f.value, env)
+            if f.attr == "getText" and tx == "arg":
+                return f"py_get_text {paren_arg(x)}", "str"
+            if f.attr == "getText" and tx == "cmd":
+                return f"py_cmd_text {paren_arg(x)}", "str"
+            if f.attr == "single_argument" and tx == "cmd":
+                return f"py_single_arguments {paren_arg(x)}", ("list", "arg")
+            fail(e, f".{f.attr}() on a value of type {tx}")
+        # ---- Class.static_method(args): the function itself (recursion) or one translated before
+        if isinstance(f, ast.Attribute) and isinstance(f.value, ast.Name) and f.value.id in self.mod.classes \
+                and f.value.id not in env:
+            q = f"{f.value.id}.{f.attr}"
+            name = q.replace(".", "_")
+            if q == self.qual and self.rec_param is not None:
+                if len(e.args) != 1 or not (isinstance(e.args[0], ast.Name) and e.args[0].id in env
+                                            and env[e.args[0].id].child):
+                    fail(e, "recursive call on something that is not an argument child of the parameter")
+                self.recursive = True
+                return f"{name} {env[e.args[0].id].coq}", self.declared_result
+            if name in EMITTED:
+                sig = EMITTED[name]
+                if len(sig[0]) != len(e.args):
+                    fail(e, "call with a different number of arguments")
+                args = []
+                for a, want in zip(e.args, sig[0]):
+                    x, tx = self.expr(a, env)
+                    if unify(tx, want) != want:
+                        fail(e, f"argument of type {tx}, expected {want}")
+                    args.append(paren_arg(self.coerce(x, tx, want)))
+                return f"{name} " + " ".join(args), sig[1]
+            fail(e, f"call of {q}, which is not translated (before this function)")
         if isinstance(f, ast.Name):
             if f.id == "len" and len(e.args) == 1:
                 x, t = self.expr(e.args[0], env)
@@ -753,6 +997,15 @@ class Fn:
                 if isinstance(t, tuple) and t[0] == "opt":
                     return ("py_is_none " if isinstance(op, ast.Is) else "py_is_not_none ") + paren_arg(x)
                 fail(e, f"is / is not None on a value of type {t} that is not Optional")
+            if isinstance(op, (ast.In, ast.NotIn)) and isinstance(r, ast.Tuple) and r.elts:
+                # x in (a, b, ..)  is  x == a or x == b or ..
+                eqs = []
+                for el in r.elts:
+                    cmp_ = ast.Compare(left=l, ops=[ast.Eq()], comparators=[el])
+                    ast.copy_location(cmp_, e)
+                    eqs.append(self.cond(cmp_, env))
+                c = eqs[0] if len(eqs) == 1 else "(" + " || ".join(eqs) + ")"
+                return c if isinstance(op, ast.In) else f"negb {paren_arg(c)}"
             a, ta = self.expr(l, env)
             b, tb = self.expr(r, env)
             if isinstance(op, (ast.In, ast.NotIn)):
@@ -771,6 +1024,12 @@ class Fn:
             if unify(ta, tb) is None:
                 fail(e, f"comparison of {ta} with {tb}")
             t = unify(ta, tb)
+            if t == "zint":
+                znames = {ast.Eq: "py_zint_eq", ast.NotEq: "py_zint_ne", ast.Lt: "py_zint_lt", ast.LtE: "py_zint_le",
+                          ast.Gt: "py_zint_gt", ast.GtE: "py_zint_ge"}
+                if type(op) not in znames:
+                    fail(e, "comparison operator")
+                return f"{znames[type(op)]} {paren_arg(self.coerce(a, ta, t))} {paren_arg(self.coerce(b, tb, t))}"
             if isinstance(op, (ast.Eq, ast.NotEq)):
                 eq = isinstance(op, ast.Eq)
                 if t == "str":
@@ -898,12 +1157,28 @@ class Fn:
                 if returns_handle:
                     return let(f"'({c}, _)", text, cont(env2))
                 return let(c, text, cont(env2))
+            if isinstance(e, ast.Call) and isinstance(e.func, ast.Attribute) and e.func.attr in LOG_METHODS \
+                    and isinstance(e.func.value, ast.Attribute) and isinstance(e.func.value.value, ast.Name) \
+                    and e.func.value.value.id == "self" and e.func.value.attr == "logger":
+                return cont(env)        # self.logger.<level>(...): no effect on the computation
             if isinstance(e, ast.Call) and isinstance(e.func, ast.Attribute) and e.func.attr == "append" \
                     and len(e.args) == 1 and not e.keywords:
                 key, v = self.lookup(e.func.value, env)
                 x, t = self.expr(e.args[0], env)
                 if not is_list(v.type) or unify(v.type, ("list", t)) is None:
                     fail(st, f"append of {t} to a value of type {v.type}")
+                a0 = e.args[0]
+                if key == DOCUMENTED and isinstance(a0, ast.Name) and t == "entry" \
+                        and any(self.fields.get(f) == "await" for f in self.out_fields):
+                    # the object stays reachable through the local name: remember WHERE it is stored
+                    okey = a0.id
+                    env1, ci = self.bind(env, "$index of " + okey, "int")
+                    ov = env1[okey]
+                    env1 = dict(env1)
+                    env1[okey] = Var(ov.coq, ov.type, ov.group, ci, ov.child)
+                    return let(ci, f"py_len {v.coq}",
+                               self.mutate(env1, key, v, f"py_append {v.coq} {paren_arg(x)}",
+                                           unify(v.type, ("list", t)), cont))
                 return self.mutate(env, key, v, f"py_append {v.coq} {paren_arg(x)}", unify(v.type, ("list", t)), cont)
             fail(st, "expression statement")
 
@@ -913,10 +1188,13 @@ class Fn:
         if isinstance(st, ast.For):
             return self.for_stmt(st, env, cont)
 
+        if isinstance(st, ast.Try):
+            return self.if_stmt(self.try_as_if(st, env), env, rest, k)
+
         if isinstance(st, ast.Break):
             if rest:
                 fail(rest[0], "statement after break")
-            if not self.loops or not self.loops[-1][1]:
+            if not self.loops or not self.loops[-1][1] or self.loops[-1][2]:
                 fail(st, "break outside a loop body / at an unsupported place")
             names = [env[key].coq for key in self.loops[-1][0]]
             return f"({tup_expr(names)}, true)"
@@ -924,13 +1202,15 @@ class Fn:
         if isinstance(st, ast.Return):
             if rest:
                 fail(rest[0], "statement after return")
-            if self.loops:
-                fail(st, "return inside a loop")
+            if self.loops and not (len(self.loops) == 1 and self.loops[0][2]):
+                fail(st, "return inside nested loops / a loop with break")
             if st.value is None:
-                fail(st, "return without a value")
-            x, t = self.expr(st.value, env)
-            self.set_result(st, t)
-            return f"Some {paren_arg(x)}" if self.has_raise else x
+                res = self.exit_value(env, st)
+            else:
+                x, t = self.expr(st.value, env)
+                self.set_result(st, t)
+                res = f"Some {paren_arg(x)}" if self.has_raise else x
+            return f"inr {paren_arg(res)}" if self.loops else res
 
         if isinstance(st, ast.Raise):
             if rest:
@@ -940,6 +1220,79 @@ class Fn:
             return "None"
 
         fail(st, "statement")
+
+    def try_as_if(self, st, env):
+        """try: x = xs[e]; <assignments that cannot raise>  except IndexError: <handler ending in return>
+        is   if e < len(xs): <try body> else: <handler>   (e is a natural number, so xs[e] raises
+        IndexError exactly when e >= len(xs))"""
+        ok = (len(st.handlers) == 1 and not st.orelse and not st.finalbody
+              and isinstance(st.handlers[0].type, ast.Name) and st.handlers[0].type.id == "IndexError"
+              and st.handlers[0].name is None and st.body
+              and isinstance(st.body[0], ast.Assign) and len(st.body[0].targets) == 1
+              and isinstance(st.body[0].targets[0], ast.Name)
+              and isinstance(st.body[0].value, ast.Subscript)
+              and not isinstance(st.body[0].value.slice, ast.Slice)
+              and isinstance(st.body[0].value.value, ast.Name))
+        if ok:
+            for s2 in st.body[1:]:
+                # nothing else in the try body may be able to raise IndexError
+                if not (isinstance(s2, ast.Assign) and len(s2.targets) == 1 and isinstance(s2.targets[0], ast.Name)
+                        and isinstance(s2.value, (ast.Name, ast.Constant))):
+                    ok = False
+            h = st.handlers[0].body
+            if not (h and isinstance(h[-1], ast.Return)):
+                ok = False
+        if not ok:
+            fail(st, "try statement outside the shape  try: x = xs[e]; y = z ..  except IndexError: ..; return")
+        sub = st.body[0].value
+        xs, txs = self.expr(sub.value, env)
+        i, ti = self.expr(sub.slice, env)
+        if not is_list(txs) or ti != "int":
+            fail(st, "try: x = xs[e] with xs not a list or e not a non-negative int")
+        test = ast.Compare(left=sub.slice, ops=[ast.Lt()],
+                           comparators=[ast.Call(func=ast.Name(id="len", ctx=ast.Load()), args=[sub.value],
+                                                 keywords=[])])
+        node = ast.If(test=test, body=st.body, orelse=st.handlers[0].body)
+        for n in ast.walk(node):
+            if not hasattr(n, "lineno"):
+                ast.copy_location(n, st)
+        ast.copy_location(node, st)
+        ast.fix_missing_locations(node)
+        return node
+
+    def materialize(self, env, keys):
+        """make the fields among keys that are still the object's incoming values explicit in env"""
+        env2 = env
+        for key in keys:
+            if key.startswith("self.") and key not in env2:
+                node = ast.Attribute(value=ast.Name(id="self", ctx=ast.Load()), attr=key[5:], ctx=ast.Load())
+                ast.copy_location(node, self.fn)
+                node.value.lineno = node.lineno
+                v = self.read_field(node, env2)
+                env2 = dict(env2)
+                env2[key] = v
+        return env2
+
+    def exit_value(self, env, node):
+        """the result at a bare return / at the end of the body: (world and) the fields the method
+        assigns anywhere; a field not assigned on this path has its incoming value"""
+        if self.has_return:
+            fail(node, "a path that ends without a value in a function with return statements")
+        fields = list(self.out_fields) + [f for f in self.mutated_params if f not in self.out_fields]
+        env = self.materialize(env, ["self." + f for f in fields])
+        outs = []
+        if self.uses_world:
+            outs.append((env[WORLD].coq, "world"))
+        for f in fields:
+            v = env["self." + f]
+            outs.append((v.coq, v.type))
+        if not outs:
+            fail(node, "function without result")
+        t = outs[0][1] if len(outs) == 1 else ("tuple", [x[1] for x in outs])
+        self.set_result(node, t)
+        self.result_fields = ["world"] * (1 if self.uses_world else 0) + ["self_" + f for f in fields]
+        x = tup_expr([o[0] for o in outs])
+        return f"Some {paren_arg(x)}" if self.has_raise else x
 
     def set_result(self, node, t):
         if self.result_type is None:
@@ -1005,15 +1358,32 @@ class Fn:
                 # a field parameter: make it a tracked variable so that mutations through the
                 # alias are visible in it
                 env, _ = self.bind(env, okey, ov.type)
-                if okey.startswith("self.") and okey[5:] in self.ever_written:
-                    self.ever_written.remove(okey[5:])
+                if okey.startswith("self.") and okey[5:] not in self.mutated_params:
                     self.mutated_params.append(okey[5:])
                 ov = env[okey]
             group = (ov.group or frozenset([okey])) | {key}
         old = env.get(key)
+        if key.startswith("self.") and self.fields.get(key[5:]) == "await":
+            # the one aliasing rule: a field holding a reference to a documentation object is the
+            # POSITION of that object in self.documented
+            if not (isinstance(value, ast.Name) and t == "entry" and env[value.id].index is not None):
+                fail(st, f"{key} is assigned something that was not just appended to {DOCUMENTED}")
+            env2, c = self.bind(env, key, "await")
+            return let(c, f"Aggregator.AwTop {env[value.id].index}", cont(env2))
+        if t == "none":
+            fail(st, "assignment of None to a variable")
         if old is not None and unify(old.type, t) is None:
             fail(st, f"variable {key} changes its type from {old.type} to {t}")
+        if old is not None and old.type == "zint" and t == "int":
+            x, t = self.coerce(x, t, "zint"), "zint"     # the variable holds integers that may be negative
+        elif old is not None and old.type == "int" and t == "zint":
+            fail(st, f"variable {key} holds natural numbers and is assigned a possibly negative int")
+        index = None
+        if t == "entry" and isinstance(value, ast.Name):
+            index = env[value.id].index
         env2, c = self.bind(env, key, t, group)
+        if index is not None:
+            env2[key] = Var(c, t, group, index)
         return let(c, x, cont(env2))
 
     def capture_env(self, stmts, env):
@@ -1107,9 +1477,11 @@ class Fn:
                 return render(a, b, False)
             ta, tb = target_names(body_a), target_names(body_b)
             cand = self.expand_aliases(ta + [n for n in tb if n not in ta], env)
-            for n in cand:
-                if n.startswith("self.") and n not in env and n[5:] in self.field_params:
-                    fail(st, f"self.{n[5:]} is a parameter that is conditionally assigned")
+            # fields assigned in a branch: make their incoming values explicit, so that the branch
+            # that does not assign keeps them
+            env = self.materialize(env, cand)
+            env_a = self.materialize(env_a, cand)
+            env_b = self.materialize(env_b, cand)
             e1 = self.capture_env(body_a, env_a)
             e2 = self.capture_env(body_b, env_b)
             vs = []
@@ -1121,9 +1493,6 @@ class Fn:
                     if n in env and unify(env[n].type, t) is None:
                         fail(st, f"variable {n} changes its type in a branch")
                     vs.append((n, t))
-                elif n.startswith("self."):
-                    if n[5:] not in self.ever_written:
-                        self.ever_written.append(n[5:])
             if not vs:
                 fail(st, "if statement without effect on the variables")
 
@@ -1159,16 +1528,14 @@ class Fn:
                  and n.value.id == "self" else None)
             if key is not None and key in assigned:
                 fail(st, f"{key} is used in the loop header and assigned in the loop body")
+        env = self.materialize(env, assigned)      # fields assigned in the body: their incoming values
         state = [n for n in assigned if n in env]
-        for n in assigned:
-            if n.startswith("self.") and n not in env:
-                if n[5:] in self.field_params:
-                    fail(st, f"self.{n[5:]} is a parameter that is assigned in a loop")
-                if n[5:] not in self.ever_written:
-                    self.ever_written.append(n[5:])
         if not state:
             fail(st, "loop without effect on the variables")
         brk = has_break(st.body)
+        ret = any(isinstance(n, ast.Return) for s2 in st.body for n in ast.walk(s2))
+        if ret and (brk or self.loops):
+            fail(st, "a loop with return that also has break / is nested in a loop")
         if any(isinstance(n, ast.Continue) for s2 in st.body for n in ast.walk(s2)):
             fail(st, "continue")
         if lv == "_":
@@ -1181,8 +1548,10 @@ class Fn:
                 if n not in e:
                     fail(st, f"internal: state variable {n} lost")
             t = tup_expr([e[n].coq for n in state])
+            if ret:
+                return f"inl {paren_arg(t)}"
             return f"({t}, false)" if brk else t
-        self.loops.append((state, brk))
+        self.loops.append((state, brk, ret))
         self.depth += 1
         try:
             # types of the state at the end of the body (may refine the type of a [] literal)
@@ -1211,9 +1580,13 @@ class Fn:
         env2 = dict(env)
         for n in state:
             env2[n] = Var(env_in[n].coq, env_in[n].type, env[n].group)
-        comb = "py_for_break" if brk else "py_for"
+        comb = "py_for_ret" if ret else "py_for_break" if brk else "py_for"
         fun = f"(fun {tup_pat(names_in)} {cv} =>\n{ind(body, 3)})"
         rhs = f"{comb} {paren_arg(xs)}\n{ind(fun)}\n{ind(tup_expr(names_in))}"
+        if ret:
+            # a return statement inside the loop ends the function with that result
+            return (f"match\n{ind(rhs)}\nwith\n| inr result_ => result_\n"
+                    f"| inl {paren_arg(tup_expr(names_in))} =>\n{ind(paren(cont(env2)), 4)}\nend")
         return let(tup_pat(names_in), rhs, cont(env2))
 
     # ---- the whole function -----------------------------------------------------------
@@ -1249,28 +1622,12 @@ class Fn:
             rt = self.mod.annotation(fn.returns)
             if rt is None:
                 fail(fn.returns, "return annotation")
+            self.declared_result = rt
+        if not is_method and len(explicit) == 1 and explicit[0][1] == "arg" and self.declared_result is not None:
+            self.rec_param = params[0].arg      # a function over an argument context may call itself on children
 
         def kend(e):
-            # falling off the end of the body: the result is the tuple of the world (if any) and the
-            # self fields the method assigned
-            if self.has_return:
-                fail(fn, "a path that falls off the end of a function with return statements")
-            outs = []
-            if self.uses_world:
-                outs.append((e[WORLD].coq, "world"))
-            for f in self.ever_written + self.mutated_params:
-                key = "self." + f
-                if key not in e:
-                    fail(fn, f"self.{f} is only conditionally assigned")
-                if (e[key].coq, e[key].type) not in outs:
-                    outs.append((e[key].coq, e[key].type))
-            if not outs:
-                fail(fn, "function without result")
-            t = outs[0][1] if len(outs) == 1 else ("tuple", [x[1] for x in outs])
-            self.set_result(fn, t)
-            self.result_fields = [x[0] for x in outs]
-            x = tup_expr([x[0] for x in outs])
-            return f"Some {paren_arg(x)}" if self.has_raise else x
+            return self.exit_value(e, fn)
         body = self.block(fn.body, env, kend)
         binders = []
         if self.uses_world:
@@ -1284,6 +1641,12 @@ class Fn:
             rt = "option " + coq_type(self.result_type, False)
         name = self.qual.replace(".", "_")
         sig = " ".join(f"({c} : {coq_type(t)})" for c, t in binders)
+        if self.recursive:
+            if unify(self.result_type, self.declared_result) is None or self.has_raise:
+                fail(fn, "recursive function whose result is not of its declared type")
+            c0 = binders[0][0]
+            body = (f"py_arg_rec {default_of(self.result_type)}\n"
+                    f"  (fun {name} {c0} =>\n{ind(body, 5)})\n  {c0}")
         text = f"Definition {name} {sig} : {rt} :=\n{ind(body)}."
         return name, text, [t for _, t in binders], self.result_type
 
@@ -1374,7 +1737,7 @@ HEADER = """(* GENERATED by translators/py2coq.py from the Python source of CMin
    them (the assignments of __init__, or the dataclass fields, base classes first).
    Result: the returned value; for a method without return, the tuple of (world and) the fields it
    assigns, in order of first assignment. *)
-From Coq Require Import String List NArith Bool Arith.
+From Coq Require Import String List NArith ZArith Bool Arith.
 From CMinx Require Import Base.Str Base.PySem.
 Import ListNotations.
 """
@@ -1421,7 +1784,7 @@ def generate(repo):
             f = Fn(mod, q, fn, cname)
             name, text, ptypes, rtype = f.translate()
             GLOBAL_NAMES.add(name)
-            if cname is None:
+            if f.cname is None and not f.uses_world:
                 EMITTED[name] = (ptypes, rtype)
             need_writer = need_writer or f.uses_world
             comment = [f"(* {rel}, {q} (line {fn.lineno})"]
@@ -1435,6 +1798,8 @@ def generate(repo):
             defs.append("\n".join(comment) + "\n" + text)
         if need_writer:
             out.append("From CMinx Require Import Model.Writer.")
+        if any("Parser." in d or "DocTypes." in d or "Aggregator." in d for d in defs):
+            out.append("From CMinx Require Model.Lexer Model.Parser Model.DocTypes Model.Aggregator.")
         for en, members in mod.enums.items():
             out.append(emit_enum(en, members))
         out.extend(defs)
